@@ -66,7 +66,7 @@ def h_active(sx):
     tags = []
     sep = p.get("separator", "=")
     for i in range(n):
-        c = sx.choice("slot%d" % i, list(range(len(TAGS))))
+        c = sx.choice("slot%d" % i, (p.get("slot_pools") or {}).get(str(i)) or list(range(len(TAGS))))
         t = TAGS[c if isinstance(c, int) else c.concretize()]
         if t is not None:
             tags.append(t.replace("=", sep))
@@ -193,6 +193,12 @@ def jobs(tier, seed):
                 {"ver_compare": "ge", "provider": "atvp-real"}, {"ver_compare": "le", "provider": "composite-real"},
                 {"ver_compare": "ge", "history": True}, {"ver_compare": "eq", "history": True, "provider": "composite-real"},
                 {"ver_compare": "ge", "separator": ":"}]
+    # three slots: tags of one category separated by an active tag of ANOTHER category (grouping must not depend on adjacency)
+    os_tags = [i for i, t in enumerate(TAGS) if t and "with_os" in t]
+    other = [i for i, t in enumerate(TAGS) if t and ("with_ver=3" in t or "with_flag=yes" in t or "with_ver=5" in t)]
+    js.append(Job("active.split-category", "props.c19:h_active",
+                  {"ver_compare": "ge", "slots": 3, "slot_pools": {"0": os_tags, "1": other, "2": os_tags}},
+                  reach=["C19.excluded==documented-formula"], min_paths=50, cost=500, validate=100, closure=False, max_paths=500000, budget_s=1500))
     for i, v in enumerate(variants):
         js.append(Job("active.v%d" % i, "props.c19:h_active", dict(v, slots=slots if i == 0 else 2),
                       reach=["C19.excluded==documented-formula"], min_paths=100, cost=1000 if i == 0 else 100,
